@@ -14,6 +14,7 @@ INVARIANT HistoryIndependent
 INVARIANT DropByNameIsByIndex
 INVARIANT EncodeDropCommute
 INVARIANT DropNothing
+INVARIANT StackIsFunction
 INVARIANT EmitStack
 INVARIANT EmitHist
 CHECK_DEADLOCK FALSE
